@@ -33,7 +33,7 @@ class SimLoop(asyncio.BaseEventLoop):
         self.exc_reports = []           # what the loop's exception handler saw
         self.tasks = []                 # every task created during the run (strong refs, in order)
         self.set_exception_handler(self._record_exception)
-        self.set_task_factory(self._task_factory)
+        self.set_task_factory(SimLoop._sim_task_factory)
         self._ran_last_turn = False
 
     # --- clock ------------------------------------------------------------------------------
@@ -48,7 +48,7 @@ class SimLoop(asyncio.BaseEventLoop):
         pass
 
     @staticmethod
-    def _task_factory(loop, coro, context=None):
+    def _sim_task_factory(loop, coro, context=None):
         if context is None:
             task = asyncio.Task(coro, loop=loop)
         else:
